@@ -8,6 +8,8 @@ package c11
 import (
 	"bytes"
 	"context"
+	"crypto/ecdsa"
+	"crypto/rand"
 	"crypto/sha256"
 	"encoding/hex"
 	"encoding/json"
@@ -22,7 +24,9 @@ import (
 	"github.com/notaryproject/notation-core-go/signature"
 	"github.com/notaryproject/notation-go"
 	"github.com/notaryproject/notation-go/registry"
+	libsigner "github.com/notaryproject/notation-go/signer"
 	"github.com/notaryproject/notation-go/xverif/common"
+	pluginfw "github.com/notaryproject/notation-plugin-framework-go/plugin"
 	"github.com/opencontainers/go-digest"
 	ocispec "github.com/opencontainers/image-spec/specs-go/v1"
 	"oras.land/oras-go/v2"
@@ -50,7 +54,10 @@ type Repo struct {
 }
 
 type SignerCfg struct {
+	Impl      string   `json:"impl"`
 	Kind      string   `json:"kind"`
+	Faith     string   `json:"faith"`
+	Config    []KV     `json:"config"`
 	Thumbs    []string `json:"thumbs"`
 	Time      int64    `json:"time"`
 	PluginAnn []KV     `json:"pluginAnn"`
@@ -64,16 +71,18 @@ type Step struct {
 	Target int    `json:"target"`
 	Md     []KV   `json:"md"`
 	Opts   string `json:"opts"`
+	Signer int    `json:"signer"`
+	Cfg    int    `json:"cfg"`
 }
 
 type Input struct {
-	Backend      string    `json:"backend"`
-	Arts         []Art     `json:"arts"`
-	Tag          *int      `json:"tag"`
-	Repo         Repo      `json:"repo"`
-	Signer       SignerCfg `json:"signer"`
-	PluginConfig []KV      `json:"pluginConfig"`
-	Steps        []Step    `json:"steps"`
+	Backend       string      `json:"backend"`
+	Arts          []Art       `json:"arts"`
+	Tag           *int        `json:"tag"`
+	Repo          Repo        `json:"repo"`
+	Signers       []SignerCfg `json:"signers"`
+	PluginConfigs [][]KV      `json:"pluginConfigs"`
+	Steps         []Step      `json:"steps"`
 }
 
 type DescObs struct {
@@ -89,6 +98,8 @@ type CallObs struct {
 	Signed       *DescObs `json:"signed"`
 	Subject      *DescObs `json:"subject"`
 	PushAnn      *[]KV    `json:"pushAnn"`
+	Payload      *DescObs `json:"payload"`
+	PluginCfg    *[]KV    `json:"pluginCfg"`
 	Returned     string   `json:"returned"`
 	RepoViewSame bool     `json:"repoViewSame"`
 	HandedSame   bool     `json:"handedSame"`
@@ -224,6 +235,154 @@ func (s *signer) Sign(ctx context.Context, desc ocispec.Descriptor, opts notatio
 	return env, &si, nil
 }
 
+// recSigner records what SignOCI hands to one of the library's own signers and passes it on.
+type recSigner struct {
+	inner  notation.Signer
+	got    []ocispec.Descriptor
+	gotCfg []map[string]string
+}
+
+func (s *recSigner) Sign(ctx context.Context, desc ocispec.Descriptor, opts notation.SignerSignOptions) ([]byte, *signature.SignerInfo, error) {
+	s.got = append(s.got, cloneDesc(desc))
+	s.gotCfg = append(s.gotCfg, opts.PluginConfig)
+	return s.inner.Sign(ctx, desc, opts)
+}
+
+// recAnnSigner: the same for a signer that has manifest annotations (signer.PluginSigner).
+type recAnnSigner struct{ *recSigner }
+
+func (s recAnnSigner) PluginAnnotations() map[string]string {
+	return s.inner.(interface{ PluginAnnotations() map[string]string }).PluginAnnotations()
+}
+
+// scriptedPlugin is an in-process signing plugin: a signature generator (signs the bytes it is given) or an envelope
+// generator whose envelope is over what `faith` says - exactly the payload it was given, or a payload that lost,
+// changed or gained annotations, or names another digest / size / media type.
+type scriptedPlugin struct {
+	envelope bool
+	faith    string
+	chain    *common.Chain
+	time     int64
+	ann      []KV
+	annNil   bool
+	cfgs     []map[string]string // PluginConfig of every request, copied
+}
+
+const addedKey, alteredMark = "zz.added.by.plugin", "'"
+
+func (p *scriptedPlugin) saw(cfg map[string]string) { p.cfgs = append(p.cfgs, cloneMap(cfg)) }
+
+func (p *scriptedPlugin) GetMetadata(ctx context.Context, req *pluginfw.GetMetadataRequest) (*pluginfw.GetMetadataResponse, error) {
+	p.saw(req.PluginConfig)
+	m := &pluginfw.GetMetadataResponse{Name: "c11-scripted", Description: "scripted signing plugin", Version: "1.0.0",
+		URL: "https://example.com/c11", SupportedContractVersions: []string{pluginfw.ContractVersion},
+		Capabilities: []pluginfw.Capability{pluginfw.CapabilitySignatureGenerator}}
+	if p.envelope {
+		m.Capabilities = []pluginfw.Capability{pluginfw.CapabilityEnvelopeGenerator}
+	}
+	return m, nil
+}
+
+func (p *scriptedPlugin) DescribeKey(ctx context.Context, req *pluginfw.DescribeKeyRequest) (*pluginfw.DescribeKeyResponse, error) {
+	p.saw(req.PluginConfig)
+	return &pluginfw.DescribeKeyResponse{KeyID: req.KeyID, KeySpec: pluginfw.KeySpecEC256}, nil
+}
+
+func (p *scriptedPlugin) GenerateSignature(ctx context.Context, req *pluginfw.GenerateSignatureRequest) (*pluginfw.GenerateSignatureResponse, error) {
+	p.saw(req.PluginConfig)
+	key := p.chain.Leaf().Key.(*ecdsa.PrivateKey)
+	d := sha256.Sum256(req.Payload)
+	r, s, err := ecdsa.Sign(rand.Reader, key, d[:])
+	if err != nil {
+		panic(err)
+	}
+	n := (key.Curve.Params().BitSize + 7) / 8
+	sig := make([]byte, 2*n)
+	r.FillBytes(sig[:n])
+	s.FillBytes(sig[n:])
+	var der [][]byte
+	for _, c := range p.chain.X509() {
+		der = append(der, c.Raw)
+	}
+	return &pluginfw.GenerateSignatureResponse{KeyID: req.KeyID, Signature: sig,
+		SigningAlgorithm: pluginfw.SignatureAlgorithmECDSA_SHA256, CertificateChain: der}, nil
+}
+
+func (p *scriptedPlugin) GenerateEnvelope(ctx context.Context, req *pluginfw.GenerateEnvelopeRequest) (*pluginfw.GenerateEnvelopeResponse, error) {
+	p.saw(req.PluginConfig)
+	var pl struct {
+		TargetArtifact ocispec.Descriptor `json:"targetArtifact"`
+	}
+	if err := json.Unmarshal(req.Payload, &pl); err != nil {
+		panic(fmt.Sprintf("c11: the payload handed to the plugin does not decode: %v", err))
+	}
+	d := pl.TargetArtifact
+	kv := pairs(d.Annotations)
+	switch p.faith {
+	case "faithful":
+	case "dropAll":
+		kv = nil
+	case "dropOne":
+		if len(kv) > 0 {
+			kv = kv[1:]
+		}
+	case "alterOne":
+		if len(kv) > 0 {
+			kv[0][1] += alteredMark
+		}
+	case "addOne":
+		kv = merge(kv, []KV{{addedKey, "1"}})
+	case "wrongDigest":
+		d.Digest = digest.FromString("something else")
+	case "wrongSize":
+		d.Size++
+	case "wrongMediaType":
+		d.MediaType = "application/vnd.c11.something.else"
+	default:
+		panic("c11: faith " + p.faith)
+	}
+	d.Annotations = toMap(kv, true)
+	env, err := common.SignEnvelope(common.EnvOpts{Format: req.SignatureEnvelopeType, Chain: p.chain, Payload: common.PayloadFor(d),
+		SigningTime: time.Unix(p.time, 0)})
+	if err != nil {
+		panic(fmt.Sprintf("c11: SignEnvelope: %v", err))
+	}
+	return &pluginfw.GenerateEnvelopeResponse{SignatureEnvelope: env, SignatureEnvelopeType: req.SignatureEnvelopeType,
+		Annotations: toMap(p.ann, p.annNil)}, nil
+}
+
+// payloadOf: the target artifact inside a signature envelope.
+func payloadOf(mediaType string, blob []byte) *DescObs {
+	env, err := signature.ParseEnvelope(mediaType, blob)
+	if err != nil {
+		return &DescObs{MediaType: "envelope does not parse: " + err.Error(), Ann: []KV{}}
+	}
+	content, err := env.Content()
+	if err != nil {
+		return &DescObs{MediaType: "envelope has no content: " + err.Error(), Ann: []KV{}}
+	}
+	var pl struct {
+		TargetArtifact ocispec.Descriptor `json:"targetArtifact"`
+	}
+	if err := json.Unmarshal(content.Payload.Content, &pl); err != nil {
+		return &DescObs{MediaType: "payload does not decode: " + err.Error(), Ann: []KV{}}
+	}
+	return descObs(pl.TargetArtifact)
+}
+
+// envelopeTime: the signing time inside a signature envelope, as generateAnnotations must print it.
+func envelopeTime(mediaType string, blob []byte) string {
+	env, err := signature.ParseEnvelope(mediaType, blob)
+	if err != nil {
+		return "?"
+	}
+	content, err := env.Content()
+	if err != nil {
+		return "?"
+	}
+	return content.SignerInfo.SignedAttributes.SigningTime.UTC().Format(time.RFC3339)
+}
+
 // annotatingSigner additionally implements notation's (unexported) signerAnnotation interface.
 type annotatingSigner struct{ *signer }
 
@@ -306,8 +465,10 @@ type handedRec struct {
 }
 
 type pushRec struct {
-	subject ocispec.Descriptor
-	ann     map[string]string
+	subject   ocispec.Descriptor
+	ann       map[string]string
+	mediaType string
+	blob      []byte
 }
 
 // recRepo records what SignOCI asks of the repository behind it.
@@ -336,7 +497,7 @@ func (r *recRepo) FetchSignatureBlob(ctx context.Context, desc ocispec.Descripto
 }
 
 func (r *recRepo) PushSignature(ctx context.Context, mediaType string, blob []byte, subject ocispec.Descriptor, annotations map[string]string) (ocispec.Descriptor, ocispec.Descriptor, error) {
-	r.pushes = append(r.pushes, pushRec{cloneDesc(subject), cloneMap(annotations)})
+	r.pushes = append(r.pushes, pushRec{cloneDesc(subject), cloneMap(annotations), mediaType, append([]byte(nil), blob...)})
 	return r.inner.PushSignature(ctx, mediaType, blob, subject, annotations)
 }
 
@@ -668,13 +829,21 @@ func newGen(c *common.Ctx) *gen {
 // abstract case before the world exists
 type spec struct {
 	backend   string
-	arts      [][]KV // annotations each artifact is stored / tagged with
-	tag       int    // what the tag names at the start (-1: no tag)
-	repo      Repo   // honoured by the mock only
-	signer    SignerCfg
+	arts      [][]KV    // annotations each artifact is stored / tagged with
+	tag       int       // what the tag names at the start (-1: no tag)
+	repo      Repo      // honoured by the mock only
+	signer    SignerCfg // signer 0
 	chainLen  int
-	pluginCfg []KV
+	pluginCfg []KV // the caller's PluginConfig map 0
 	steps     []Step
+	// further signers and caller PluginConfig maps the steps may name
+	moreSigners []signerSpec
+	moreCfgs    [][]KV
+}
+
+type signerSpec struct {
+	cfg      SignerCfg
+	chainLen int
 }
 
 func (s spec) mutates() bool {
@@ -822,7 +991,14 @@ func (g *gen) runSpec(s spec) (Input, Obs) {
 	r := g.c.Rand
 	w := g.buildWorld(s)
 	g.lastQuiet = w.quiet
-	in := Input{Backend: w.backend, Arts: []Art{}, Repo: w.repoFlags(s), Signer: s.signer, PluginConfig: s.pluginCfg, Steps: s.steps}
+	in := Input{Backend: w.backend, Arts: []Art{}, Repo: w.repoFlags(s), Steps: s.steps}
+	sspecs := append([]signerSpec{{s.signer, s.chainLen}}, s.moreSigners...)
+	for _, c := range append([][]KV{s.pluginCfg}, s.moreCfgs...) {
+		if c == nil {
+			c = []KV{}
+		}
+		in.PluginConfigs = append(in.PluginConfigs, c)
+	}
 	for k, p := range w.plains {
 		in.Arts = append(in.Arts, Art{MediaType: p.MediaType, Digest: p.Digest.String(), Size: p.Size, Ann: pairs(w.annotated[k].Annotations)})
 	}
@@ -838,22 +1014,70 @@ func (g *gen) runSpec(s spec) (Input, Obs) {
 			panic(fmt.Sprintf("c11: the initial view of the tag is not the one assumed: %v %v", err, d))
 		}
 	}
-	if in.Signer.PluginAnn == nil {
-		in.Signer.PluginAnn = []KV{}
+	// the signers: the harness's mock, or the library's own GenericSigner / PluginSigner behind a recording proxy
+	type liveSigner struct {
+		arg    notation.Signer
+		got    *[]ocispec.Descriptor
+		gotCfg *[]map[string]string
+		plugin *scriptedPlugin
+		own    map[string]string // the plugin config the PluginSigner was created with (the caller's map, too)
+		ownCp  map[string]string
 	}
-	if in.PluginConfig == nil {
-		in.PluginConfig = []KV{}
-	}
-	in.Signer.Thumbs = append([]string{}, g.thumbs[s.chainLen]...)
-	sg := &signer{cfg: in.Signer, chain: g.chains[s.chainLen], annNil: r.Intn(2) == 0,
-		zone: time.FixedZone("c11", (r.Intn(27)-12)*3600+r.Intn(2)*1800)}
-	var theSigner notation.Signer = sg
-	if len(in.Signer.PluginAnn) > 0 || r.Intn(2) == 0 {
-		theSigner = annotatingSigner{sg}
+	var live []liveSigner
+	for _, ss := range sspecs {
+		sc := ss.cfg
+		if sc.PluginAnn == nil {
+			sc.PluginAnn = []KV{}
+		}
+		if sc.Config == nil {
+			sc.Config = []KV{}
+		}
+		if sc.Impl == "" {
+			sc.Impl, sc.Faith = "mock", "faithful"
+		}
+		sc.Thumbs = append([]string{}, g.thumbs[ss.chainLen]...)
+		in.Signers = append(in.Signers, sc)
+		chain := g.chains[ss.chainLen]
+		var ls liveSigner
+		switch sc.Impl {
+		case "mock":
+			sg := &signer{cfg: sc, chain: chain, annNil: r.Intn(2) == 0,
+				zone: time.FixedZone("c11", (r.Intn(27)-12)*3600+r.Intn(2)*1800)}
+			ls.arg, ls.got, ls.gotCfg = sg, &sg.got, &sg.gotCfg
+			if len(sc.PluginAnn) > 0 || r.Intn(2) == 0 {
+				ls.arg = annotatingSigner{sg}
+			}
+		case "generic":
+			gs, err := libsigner.NewGenericSigner(chain.Leaf().Key, chain.X509())
+			if err != nil {
+				panic(fmt.Sprintf("c11: NewGenericSigner: %v", err))
+			}
+			rs := &recSigner{inner: gs}
+			ls.arg, ls.got, ls.gotCfg = rs, &rs.got, &rs.gotCfg
+		case "pluginSig", "pluginEnv":
+			ls.plugin = &scriptedPlugin{envelope: sc.Impl == "pluginEnv", faith: sc.Faith, chain: chain, time: sc.Time,
+				ann: sc.PluginAnn, annNil: r.Intn(2) == 0}
+			ls.own = toMap(sc.Config, r.Intn(2) == 0)
+			ls.ownCp = cloneMap(ls.own)
+			ps, err := libsigner.NewPluginSigner(ls.plugin, "c11-key", ls.own)
+			if err != nil {
+				panic(fmt.Sprintf("c11: NewPluginSigner: %v", err))
+			}
+			rs := &recSigner{inner: ps}
+			ls.arg, ls.got, ls.gotCfg = recAnnSigner{rs}, &rs.got, &rs.gotCfg
+		default:
+			panic("c11: signer impl " + sc.Impl)
+		}
+		live = append(live, ls)
 	}
 	rec := &recRepo{inner: w.inner}
-	cfgMap := toMap(in.PluginConfig, r.Intn(2) == 0)
-	cfgCopy := cloneMap(cfgMap)
+	// the caller's PluginConfig map objects
+	cfgMaps := make([]map[string]string, len(in.PluginConfigs))
+	cfgCopies := make([]map[string]string, len(in.PluginConfigs))
+	for k, c := range in.PluginConfigs {
+		cfgMaps[k] = toMap(c, r.Intn(2) == 0)
+		cfgCopies[k] = cloneMap(cfgMaps[k])
+	}
 	// one UserMetadata map object per run of equal metadata in consecutive signing steps
 	mdMaps := make([]map[string]string, len(s.steps))
 	mdCopies := make([]map[string]string, len(s.steps))
@@ -884,11 +1108,14 @@ func (g *gen) runSpec(s spec) (Input, Obs) {
 			continue
 		}
 		opts := notation.SignOptions{
-			SignerSignOptions: notation.SignerSignOptions{SignatureMediaType: common.MediaJWS, PluginConfig: cfgMap, SigningAgent: "c11"},
+			SignerSignOptions: notation.SignerSignOptions{SignatureMediaType: common.MediaJWS, PluginConfig: cfgMaps[c.Cfg], SigningAgent: "c11"},
 			ArtifactReference: w.refString(c.Ref, c.Target),
 			UserMetadata:      mdMaps[j],
 		}
-		var sgArg notation.Signer = theSigner
+		ls := live[c.Signer]
+		sc := in.Signers[c.Signer]
+		cfgMap, cfgCopy := cfgMaps[c.Cfg], cfgCopies[c.Cfg]
+		var sgArg notation.Signer = ls.arg
 		var repoArg registry.Repository = rec
 		switch c.Opts {
 		case "jws":
@@ -911,7 +1138,11 @@ func (g *gen) runSpec(s spec) (Input, Obs) {
 		}
 		before := w.view()
 		countsBefore := w.sigCounts()
-		nRes, nGot, nPush := len(rec.resolves), len(sg.got), len(rec.pushes)
+		nRes, nGot, nPush := len(rec.resolves), len(*ls.got), len(rec.pushes)
+		nSaw := 0
+		if ls.plugin != nil {
+			nSaw = len(ls.plugin.cfgs)
+		}
 		var artDesc ocispec.Descriptor
 		var err error
 		panicked := false
@@ -938,11 +1169,22 @@ func (g *gen) runSpec(s spec) (Input, Obs) {
 			o.ResolveArg = &k
 			o.Ok = false
 		}
-		if len(sg.got) > nGot {
-			o.Signed = descObs(sg.got[len(sg.got)-1])
-			if len(sg.got)-nGot > 1 || !sameMapObject(sg.gotCfg[len(sg.gotCfg)-1], cfgMap) {
+		if got := *ls.got; len(got) > nGot {
+			o.Signed = descObs(got[len(got)-1])
+			if gc := *ls.gotCfg; len(got)-nGot > 1 || !sameMapObject(gc[len(gc)-1], cfgMap) {
 				o.Signed.MediaType = "signer called twice or with another PluginConfig"
 			}
+		}
+		if ls.plugin != nil && len(ls.plugin.cfgs) > nSaw {
+			// every request of the call must carry the same plugin config
+			seen := ls.plugin.cfgs[nSaw:]
+			a := pairs(seen[0])
+			for _, m := range seen[1:] {
+				if !sameMap(m, seen[0]) {
+					a = append(a, KV{"!requests of one call disagree", fmt.Sprint(pairs(m))})
+				}
+			}
+			o.PluginCfg = &a
 		}
 		if len(rec.pushes) > nPush {
 			p := rec.pushes[len(rec.pushes)-1]
@@ -951,6 +1193,16 @@ func (g *gen) runSpec(s spec) (Input, Obs) {
 			o.PushAnn = &a
 			if len(rec.pushes)-nPush > 1 {
 				o.Subject.MediaType = "pushed twice"
+			}
+			o.Payload = payloadOf(p.mediaType, p.blob)
+			if sc.Impl == "generic" || sc.Impl == "pluginSig" {
+				// these signers stamp the envelope with the wall clock: `created` must be the envelope's own signing
+				// time; when it is, it is reported as the abstract time of the case
+				for k := range a {
+					if a[k][0] == ocispec.AnnotationCreated && a[k][1] == envelopeTime(p.mediaType, p.blob) {
+						a[k][1] = time.Unix(sc.Time, 0).UTC().Format(time.RFC3339)
+					}
+				}
 			}
 		}
 		switch {
@@ -977,7 +1229,18 @@ func (g *gen) runSpec(s spec) (Input, Obs) {
 				o.HandedSame = false
 			}
 		}
-		o.OptsSame = sameMap(cfgMap, cfgCopy) && (cfgMap == nil) == (cfgCopy == nil)
+		o.OptsSame = true
+		for k := range cfgMaps {
+			if !sameMap(cfgMaps[k], cfgCopies[k]) || (cfgMaps[k] == nil) != (cfgCopies[k] == nil) {
+				o.OptsSame = false
+			}
+		}
+		for _, l := range live {
+			// the map a PluginSigner was created with is the caller's as well
+			if l.plugin != nil && (!sameMap(l.own, l.ownCp) || (l.own == nil) != (l.ownCp == nil)) {
+				o.OptsSame = false
+			}
+		}
 		for k := range mdMaps {
 			if !sameMap(mdMaps[k], mdCopies[k]) || (mdMaps[k] == nil) != (mdCopies[k] == nil) {
 				o.OptsSame = false
@@ -1087,9 +1350,60 @@ func (g *gen) mdOfClass(class string, art []KV) []KV {
 
 var mdClasses = []string{"empty", "disjoint", "colliding", "reserved", "both", "several"}
 
+var cfgPool = []KV{{"vault", "a"}, {"region", "eu"}, {"timeout", "30s"}, {"endpoint", ""}, {"profile", "default"}}
+var cfgOverridePool = []KV{{"vault", "b"}, {"region", "us"}, {"trace", "1"}, {"endpoint", "https://kms.example"}, {"profile", ""}}
+var faiths = []string{"faithful", "dropAll", "dropOne", "alterOne", "addOne", "wrongDigest", "wrongSize", "wrongMediaType"}
+
+// realSignerCfg: one of the library's own signers.
+func (g *gen) realSignerCfg(impl string) (SignerCfg, int) {
+	r := g.c.Rand
+	s, n := g.signerCfg()
+	s.Impl, s.Kind, s.Faith = impl, "ok", "faithful"
+	if impl == "pluginEnv" {
+		if r.Intn(2) == 0 {
+			s.Faith = faiths[r.Intn(len(faiths))]
+		}
+	} else {
+		s.PluginAnn = []KV{} // only an envelope-generator plugin hands back manifest annotations
+	}
+	if impl != "generic" && r.Intn(3) != 0 {
+		s.Config = pick(r, cfgPool, 1+r.Intn(3))
+	}
+	return s, n
+}
+
+// anySignerCfg: the mock or a real signer.
+func (g *gen) anySignerCfg() (SignerCfg, int) {
+	switch x := g.c.Rand.Intn(20); {
+	case x < 11:
+		return g.signerCfg()
+	case x < 14:
+		return g.realSignerCfg("generic")
+	case x < 16:
+		return g.realSignerCfg("pluginSig")
+	default:
+		return g.realSignerCfg("pluginEnv")
+	}
+}
+
+// spread assigns signers and caller PluginConfig maps to the signing steps.
+func (g *gen) spread(steps []Step, nSigners, nCfgs int) []Step {
+	r := g.c.Rand
+	out := append([]Step{}, steps...)
+	for j := range out {
+		if out[j].Op == "sign" {
+			out[j].Signer, out[j].Cfg = r.Intn(nSigners), r.Intn(nCfgs)
+			if r.Intn(2) == 0 {
+				out[j].Cfg = 0 // the same caller map again and again
+			}
+		}
+	}
+	return out
+}
+
 func (g *gen) signerCfg() (SignerCfg, int) {
 	r := g.c.Rand
-	s := SignerCfg{Kind: "ok", PluginAnn: []KV{}}
+	s := SignerCfg{Impl: "mock", Kind: "ok", Faith: "faithful", Config: []KV{}, PluginAnn: []KV{}}
 	switch x := r.Intn(20); {
 	case x == 0:
 		s.Kind = "fails"
@@ -1121,6 +1435,7 @@ func (g *gen) emit(s spec) {
 	c := g.c
 	c.Count("backend=" + in.Backend)
 	c.Count(fmt.Sprintf("artifacts=%d", len(in.Arts)))
+	c.Count(fmt.Sprintf("signers=%d", len(in.Signers)))
 	if g.lastQuiet {
 		c.Count("probes=store-only(client untouched between calls)")
 	} else {
@@ -1142,6 +1457,20 @@ func (g *gen) emit(s spec) {
 		}
 		c.Count("ref=" + st.Ref)
 		c.Count("opts=" + st.Opts)
+		sgc := in.Signers[st.Signer]
+		c.Count("signer=" + sgc.Impl)
+		if sgc.Impl == "pluginEnv" {
+			c.Count("plugin-envelope=" + sgc.Faith)
+		}
+		for _, kv := range st.Md {
+			if kv[1] == "" {
+				c.Count("metadata=with-a-blank-value")
+				break
+			}
+		}
+		if sgc.Impl != "mock" && sgc.Impl != "generic" && len(sgc.Config) > 0 && len(in.PluginConfigs[st.Cfg]) > 0 {
+			c.Count("plugin-config=signer-defaults-and-caller-entries")
+		}
 		o := obs.Calls[nSign]
 		nSign++
 		if moved && refIsTag(st.Ref) {
@@ -1175,6 +1504,20 @@ func (g *gen) emit(s spec) {
 	} else {
 		c.Count("resolve=copied-map")
 	}
+}
+
+// moreParties: sometimes a second signer and / or a second caller PluginConfig map; the steps are spread over them.
+func (g *gen) moreParties(sp spec) spec {
+	r := g.c.Rand
+	if r.Intn(3) == 0 {
+		sc, n := g.anySignerCfg()
+		sp.moreSigners = append(sp.moreSigners, signerSpec{sc, n})
+	}
+	if r.Intn(3) == 0 {
+		sp.moreCfgs = append(sp.moreCfgs, pick(r, cfgOverridePool, r.Intn(3)))
+	}
+	sp.steps = g.spread(sp.steps, 1+len(sp.moreSigners), 1+len(sp.moreCfgs))
+	return sp
 }
 
 func refIsTag(ref string) bool { return ref == "tag" || ref == "fullTag" || ref == "hostPortTag" }
@@ -1283,9 +1626,9 @@ func (g *gen) randomHistory(backend string, arts [][]KV, tag int, mutate, canUnt
 func Run(c *common.Ctx) error {
 	g := newGen(c)
 	r := c.Rand
-	nMock, nReal, nMove := 2000, 500, 240
+	nMock, nReal, nMove, nReal5 := 2000, 500, 240, 640
 	if c.Thorough() {
-		nMock, nReal, nMove = 16000, 4000, 2400
+		nMock, nReal, nMove, nReal5 = 16000, 4000, 2400, 6400
 	}
 	// (1) systematic
 	for _, ref := range allRefs {
@@ -1321,7 +1664,7 @@ func Run(c *common.Ctx) error {
 		if r.Intn(15) == 0 {
 			tag = -1
 		}
-		sc, n := g.signerCfg()
+		sc, n := g.anySignerCfg()
 		push := "ok"
 		switch r.Intn(14) {
 		case 0:
@@ -1331,10 +1674,11 @@ func Run(c *common.Ctx) error {
 		}
 		var cfg []KV
 		if r.Intn(3) == 0 {
-			cfg = pick(r, freshPool, 1+r.Intn(2))
+			cfg = pick(r, cfgOverridePool, 1+r.Intn(2))
 		}
-		g.emit(spec{backend: "mock", arts: arts, tag: tag, repo: Repo{Aliased: r.Intn(4) != 0, PlainByDigest: r.Intn(3) == 0, AnyDigest: r.Intn(3) != 0, Push: push},
-			signer: sc, chainLen: n, pluginCfg: cfg, steps: g.randomHistory("mock", arts, tag, r.Intn(3) == 0, true, allRefs)})
+		sp := spec{backend: "mock", arts: arts, tag: tag, repo: Repo{Aliased: r.Intn(4) != 0, PlainByDigest: r.Intn(3) == 0, AnyDigest: r.Intn(3) != 0, Push: push},
+			signer: sc, chainLen: n, pluginCfg: cfg, steps: g.randomHistory("mock", arts, tag, r.Intn(3) == 0, true, allRefs)}
+		g.emit(g.moreParties(sp))
 	}
 	// (3) real stores behind one long-lived client
 	for k := 0; k < nReal; k++ {
@@ -1344,13 +1688,14 @@ func Run(c *common.Ctx) error {
 		if r.Intn(15) == 0 {
 			tag = -1
 		}
-		sc, n := g.signerCfg()
+		sc, n := g.anySignerCfg()
 		var cfg []KV
 		if r.Intn(3) == 0 {
-			cfg = pick(r, freshPool, 1+r.Intn(2))
+			cfg = pick(r, cfgOverridePool, 1+r.Intn(2))
 		}
-		g.emit(spec{backend: backend, arts: arts, tag: tag, signer: sc, chainLen: n, pluginCfg: cfg,
-			steps: g.randomHistory(backend, arts, tag, r.Intn(2) == 0, backend != "mem", allRefs)})
+		sp := spec{backend: backend, arts: arts, tag: tag, signer: sc, chainLen: n, pluginCfg: cfg,
+			steps: g.randomHistory(backend, arts, tag, r.Intn(2) == 0, backend != "mem", allRefs)}
+		g.emit(g.moreParties(sp))
 	}
 	// (4) what a reference resolves to changes between two uses of the same reference with the same options
 	for k := 0; k < nMove; k++ {
@@ -1382,6 +1727,56 @@ func Run(c *common.Ctx) error {
 		g.emit(spec{backend: backend, arts: arts, tag: tag, repo: Repo{Aliased: r.Intn(3) != 0, PlainByDigest: r.Intn(2) == 0, AnyDigest: r.Intn(2) == 0, Push: "ok"},
 			signer: sc, chainLen: n, pluginCfg: []KV{}, steps: steps})
 	}
-	c.Note("C11: reference kinds x metadata classes (empty, disjoint, colliding, reserved, both, several) x annotated/plain artifact x aliased/copied map x plain/annotated digest view on a mock repository (systematic), then %d random histories on the mock (1..3 artifacts, 1..6 SignOCI/Sign calls interleaved with tag moves / deletions / re-creations; signer and push failures, invalid options, plugin annotations, signing times 1970..9999 in random zones, chains of 1..3 certificates, JWS and COSE), %d on memory.Store / on-disk OCI layouts (fresh and re-opened) behind ONE long-lived registry client per history, and %d moving-tag histories (same reference and options before and after the tag is moved / deleted / recreated through the store) on every backend; index.json, blobs, referrers (client listing cross-checked against the store) and every argument object compared before/after each call", nMock, nReal, nMove)
+	// (5) the library's own signers: what is inside the pushed envelope, what the plugin is told, what is left in the
+	// caller's maps - GenericSigner, PluginSigner over a signature generator, PluginSigner over an envelope generator
+	// that is faithful or loses / changes / adds annotations or names another artifact; metadata with blank values;
+	// two signers with defaults of their own used one after the other with the SAME caller PluginConfig map
+	blankPool := []KV{{"reviewed", ""}, {"flag", ""}, {"buildId", "42"}, {"", "blank key"}, {"note", " "}, {"owner", "me"}}
+	for k := 0; k < nReal5; k++ {
+		backend := []string{"mock", "oci", "mem", "mock", "ociReopened"}[k%5]
+		arts := g.annsFor(1 + r.Intn(2))
+		tag := r.Intn(len(arts))
+		impls := []string{"generic", "pluginSig", "pluginEnv", "pluginEnv"}
+		sc, n := g.realSignerCfg(impls[k%4])
+		if sc.Impl == "pluginEnv" {
+			sc.Faith = faiths[(k/4)%len(faiths)]
+		}
+		sp := spec{backend: backend, arts: arts, tag: tag, repo: Repo{Aliased: r.Intn(3) != 0, PlainByDigest: r.Intn(2) == 0, AnyDigest: true, Push: "ok"},
+			signer: sc, chainLen: n, pluginCfg: pick(r, cfgOverridePool, r.Intn(3))}
+		if r.Intn(2) == 0 {
+			sc2, n2 := g.realSignerCfg(impls[r.Intn(len(impls))])
+			sp.moreSigners = []signerSpec{{sc2, n2}}
+		}
+		if r.Intn(3) == 0 {
+			sp.moreCfgs = [][]KV{pick(r, cfgOverridePool, r.Intn(3))}
+		}
+		nCalls := 1 + r.Intn(3)
+		for j := 0; j < nCalls; j++ {
+			ref := goodRefs[r.Intn(len(goodRefs))]
+			target := r.Intn(len(arts))
+			against := target
+			if refIsTag(ref) {
+				against = tag
+			}
+			var md []KV
+			switch r.Intn(5) {
+			case 0:
+			case 1:
+				md = g.mdOfClass("disjoint", shown(backend, arts, tag, against))
+			case 2:
+				md = g.mdOfClass("colliding", shown(backend, arts, tag, against))
+			default:
+				md = pick(r, blankPool, 1+r.Intn(3))
+			}
+			st := signStep(ref, target, md, []string{"jws", "cose"}[r.Intn(2)])
+			st.Signer = j % (1 + len(sp.moreSigners))
+			if r.Intn(3) == 0 {
+				st.Cfg = r.Intn(1 + len(sp.moreCfgs))
+			}
+			sp.steps = append(sp.steps, st)
+		}
+		g.emit(sp)
+	}
+	c.Note("C11: reference kinds x metadata classes (empty, disjoint, colliding, reserved, both, several) x annotated/plain artifact x aliased/copied map x plain/annotated digest view on a mock repository (systematic), then %d random histories on the mock (1..3 artifacts, 1..6 SignOCI/Sign calls interleaved with tag moves / deletions / re-creations; signer and push failures, invalid options, plugin annotations, signing times 1970..9999 in random zones, chains of 1..3 certificates, JWS and COSE), %d on memory.Store / on-disk OCI layouts (fresh and re-opened) behind ONE long-lived registry client per history, and %d moving-tag histories (same reference and options before and after the tag is moved / deleted / recreated through the store) on every backend; index.json, blobs, referrers (client listing cross-checked against the store) and every argument object compared before/after each call; signers: the harness's mock or the library's GenericSigner / PluginSigner (signature generator, envelope generator that is faithful or drops / alters / adds annotations or names another artifact) behind a recording proxy, up to 2 signers and 2 caller PluginConfig maps per history; %d histories dedicated to the library's signers (blank metadata values, signer defaults + caller entries, the same caller map passed to two signers); the target artifact inside every pushed envelope and the plugin config of every plugin request are observed", nMock, nReal, nMove, nReal5)
 	return nil
 }
